@@ -94,6 +94,15 @@ def judge(c, case, must, why, impl, life, obs, where, stats):
         elif (http == 401) != (got != "ok"):
             c.violation("middleware:status-%s-verify-%s" % (http, got),
                         "auth middleware answered %s although verify returned %s; cell %s [%s]" % (http, got, base, dl), rep)
+    for name, hv in (obs.get("hdrvars") or {}).items():
+        if hv is None:
+            continue
+        stats["hdrvars"] = stats.get("hdrvars", 0) + 1
+        if name == "lower":
+            continue        # auth-scheme names are case-insensitive (RFC 7235): either answer is fine
+        if hv["status"] != 401 or hv["registered"]:
+            c.violation("middleware:no-bearer-%s" % name, "request whose Authorization header is '%s' was answered %s (registered=%s)" % (
+                name, hv["status"], hv["registered"]), rep)
     reg = obs.get("reg")
     if reg:
         stats["registrations"] += 1
